@@ -59,8 +59,12 @@ def main():
         pq.Q() | pq.ParticleNumberMeasurement()
     r = run(pq.PassiveSimulator(d=3, config=pq.Config(seed_sequence=3)), p, shots=3)
     try:
-        r.state.fock_probabilities
-        r.state.get_particle_detection_probability((1, 1, 0))
+        with pq.Program() as p0:  # no measurement: Result.state is defined only for a single branch
+            pq.Q() | pq.NumberState([1, 1, 0])
+            pq.Q(0, 1) | pq.Beamsplitter(theta=0.3, phi=0.2)
+        st = pq.PassiveSimulator(d=3, config=pq.Config(seed_sequence=3)).execute(p0).state
+        st.fock_probabilities
+        st.get_particle_detection_probability((1, 1, 0))
     except Exception:
         traceback.print_exc(limit=1)
     try:
